@@ -236,8 +236,21 @@ BpTranslate(st, c) ==
     [c EXCEPT !.p = IF c.op \in HOps \/ c.op = "getwd" THEN @ ELSE ToBase(st, @),
               !.q = IF c.op \in {"rename", "link"} THEN ToBase(st, @) ELSE @]
 
+\* Sub(dir) through the wrapper, then a mutator through the file system it hands out: the view is rooted at B + dir
+BpSubThen(impl, st, c) ==
+    LET tp == ToBase(st, c.p)
+        r == Res(st, tp, TRUE)
+        inner == [c EXCEPT !.op = IF c.op = "subwrite" THEN "writefile" ELSE "mkdir",
+                           !.p = [abs |-> TRUE, parts |-> tp.parts \o c.q.parts], !.perm = IF c.op = "subwrite" THEN 420 ELSE 493] IN
+    IF impl = "orefafs" THEN Refused(st)
+    ELSE IF r.err # "ok" THEN {Strict(Fail(r.err, st))}
+    ELSE IF r.id = 0 THEN {Strict(Fail("ENOENT", st))}
+    ELSE IF ~IsDir(st, r.id) THEN {Strict(Fail("ENOTDIR", st))}
+    ELSE Outcomes(impl, st, inner)
+
 BpStrict(impl, st, c) ==
     IF c.op \in {"symlink", "readlink", "evalsymlinks"} THEN Refused(st)      \* no symbolic links through BasePathFS
+    ELSE IF c.op \in {"subwrite", "submkdir"} THEN BpSubThen(impl, st, c)
     ELSE IF c.op = "glob" THEN {Strict(GlobK(st, BpTranslate(st, c), Len(BaseDir)))}
     ELSE IF c.op = "walk" THEN {Strict(WalkDirK(st, BpTranslate(st, c), Len(BaseDir)))}
     ELSE {[o EXCEPT !.res.path = ToVirtual(@)] : o \in Outcomes(impl, st, BpTranslate(st, c))}
